@@ -154,6 +154,17 @@ def mapList (m : AMap α) (off : Nat) (partialSel : Bool) : List α → Except E
       | .error e => .error e
       | .ok r => .ok (((p : Int) + off) :: r)
 
+/-- with an offset applied an open end of a mapped label slice is bounded by the index it was given
+    (`n` = `len(positions)`): repaired in commit 79a552f -/
+def boundSlice (s : PySlice) (off n : Nat) : PySlice :=
+  if s.step.isNone ∨ s.step.getD 1 > 0 then
+    ⟨some (s.start.getD (off : Int)), some (s.stop.getD ((off : Int) + n)), s.step⟩
+  else
+    ⟨some (s.start.getD ((off : Int) + n - 1)),
+     (match s.stop with
+      | some b => some b
+      | none => if off > 0 then some ((off : Int) - 1) else none), s.step⟩
+
 /-- `LocMap.loc_to_iloc(label_to_pos=m, positions=arange(n), key, offset, partial_selection)`. -/
 def locMap (m : AMap α) (n : Nat) (key : LKey α) (offset : Option Nat) (partialSel : Bool) :
     Except Err IKey :=
@@ -162,7 +173,11 @@ def locMap (m : AMap α) (n : Nat) (key : LKey α) (offset : Option Nat) (partia
   | .slice start stop step =>
     if offset.isSome ∧ start.isNone ∧ stop.isNone ∧ step.isNone then
       .ok (.slice ⟨some (off : Int), some ((n : Int) + off), none⟩)
-    else (mapSliceArgs m off start stop step).map .slice
+    else match mapSliceArgs m off start stop step with
+      | .error e => .error e
+      | .ok s => match offset with
+        | none => .ok (.slice s)
+        | some o => .ok (.slice (boundSlice s o n))
   | .mask bs =>
     if bs.length = n then .ok (.arr ((maskPositions bs).map (· + off))) else .error .lookup
   | .list as => (mapList m off partialSel as).map .list
@@ -199,12 +214,21 @@ def autoSlice (start stop : Option α) (step : Option Int) (off : Int) : Except 
 def locToIlocP (ix : Index α) (key : LKey α) (offset : Option Nat) (partialSel : Bool) :
     Except Err IKey :=
   match ix.map, offset with
-  | none, none =>                       -- loc_is_iloc, no offset: the key is returned as it is
-    match key with
+  | none, none =>                       -- loc_is_iloc, no offset: the key is returned as it is,
+    match key with                      --   but a negative integer is not a label (repaired in commit 9eb4b8c)
     | .mask bs => if bs.length = ix.len then .ok (.arr (maskPositions bs)) else .error .lookup
-    | .slice a b st => (autoSlice a b st 0).map .slice
-    | .list as => (asInts as).map .list
-    | .label a => (asInt a).map .int
+    | .slice a b st => match asOptInt a, asOptInt b with
+      | .ok a', .ok b' =>
+        if (a'.getD 0 < 0) ∨ (b'.getD 0 < 0) then .error .lookup       -- LocInvalid
+        else .ok (.slice (sliceToInclusive ⟨a', b', st⟩ 0))
+      | .error e, _ => .error e
+      | _, .error e => .error e
+    | .list as => match asInts as with
+      | .error e => .error e
+      | .ok is => if is.any (· < 0) then .error .lookup else .ok (.list is)
+    | .label a => match asInt a with
+      | .error e => .error e
+      | .ok i => if i < 0 then .error .lookup else .ok (.int i)
   | none, some off =>                   -- loc_is_iloc inside a hierarchy
     match key with
     | .slice a b st =>
@@ -310,10 +334,13 @@ def append (s : IndexGO α) (a : α) : IndexGO α × Option Err :=
     if toInt? a = some (s1.count : Int) then              -- stays loc_is_iloc
       ({ s1 with mutLabels := s1.mutLabels ++ [a], count := s1.count + 1, recache := true }, none)
     else
-      let ml := s1.mutLabels ++ [a]
-      match AMap.build ml with                            -- initialize_map: `AutoMap(self._labels_mutable)`
-      | none => ({ s1 with mutLabels := ml }, some .value) -- raised after `_labels_mutable.append`
-      | some m => ({ s1 with map := some m, mutLabels := ml, count := s1.count + 1, recache := true }, none)
+      -- `map_initialized = AutoMap(self._labels_mutable); map_initialized.add(value)` before any state
+      -- change (repaired in commit 1072ec5: the labels used to grow first)
+      match AMap.build s1.mutLabels with
+      | none => (s1, some .value)
+      | some m0 => match m0.add a with
+        | none => (s1, some .value)                       -- NonUniqueError, nothing changed
+        | some m => ({ s1 with map := some m, mutLabels := s1.mutLabels ++ [a], count := s1.count + 1, recache := true }, none)
 
 /-- the loop `for value in values: self.append(value)` -/
 def extendLoop (s : IndexGO α) : List α → IndexGO α × Option Err
